@@ -242,6 +242,13 @@ func runC08(rep Rep, c C08Case) {
 					p.UID, p.ResourceVersion = "", ""
 					p.Namespace = NS
 					pl := planted{name: p.Name, same: o.B == 1}
+					if pl.same {
+						// the same data in the spelling every encoding/json writer produces (the built-in controller, an
+						// earlier release of this one): for data produced by json.Marshal this changes nothing
+						if re, err := json.Marshal(json.RawMessage(p.Data.Raw)); err == nil {
+							p.Data.Raw = re
+						}
+					}
 					if !pl.same {
 						p.Data.Raw = bytes.Replace(append([]byte(nil), p.Data.Raw...), []byte(`"metadata":{`), []byte(`"metadata":{"annotations":{"planted":"yes"},`), 1)
 						if bytes.Equal(p.Data.Raw, obj.Data.Raw) {
